@@ -240,11 +240,13 @@ CHECKS = {
             {'fn': T + 'H_C08_2b_NoCommit', 'over': {'max-decisions': 2000, 'max-paths': 100000}, 'must_reach': ['executed']},
             {'fn': T + 'H_C08_2c_TrialExecution', 'over': {'max-decisions': 2000, 'max-paths': 100000}, 'must_reach': ['trial-deliver', 'trial-mempool-accepted']},
             {'fn': T + 'H_C08_3_Prediction', 'over': {'max-decisions': 2000, 'max-paths': 100000}, 'must_reach': ['predicted']},
+            {'fn': T + 'H_C08_4_EstimateGas', 'over': {'max-decisions': 1500, 'max-paths': 20000}, 'must_reach': ['estimated', 'estimate-refused', 'estimate-above-gas-used']},
+            {'fn': T + 'H_C08_4b_EstimateGasWide', 'thorough_only': True, 'over': {'max-decisions': 2500, 'max-paths': 100000}, 'must_reach': ['estimated', 'estimate-refused', 'estimate-above-gas-used']},
         ],
         'level_text': 'Bounded symbolic execution of the no-commit paths of the real code: the context-based StateDB without CommitMultiStore (14 operations, snapshot/revert brackets), the real Keeper.EthCall, ApplyMessageWithConfig(commit=false) and the real mempool trial execution ELExecWithoutErrorDecorator (check / re-check / simulate / deliver), over a symbolic ledger and a symbolic contract behaviour incl. storage writes, value transfers, self-destruct and creation with code deposit: z3 decides on every path that every persistent store (for the trial execution: every store, incl. the rolled-back sender sequence and flags) and the event manager of the caller\'s context are unchanged; and, by self-composition, that commit=false and commit=true return the same gas used, VM error and return data.',
-        'level_note': 'EstimateGas (binary search over executions) and the trace endpoints are not encoded: "a returned estimate suffices" and tracer isolation are outside. ApplyMessageWithConfig writes per-tx bookkeeping into the transient store of the context it is given also with commit=false; queries rely on BaseApp handing them a throw-away branch (assumption).',
+        'level_note': 'EstimateGas: the real Keeper.EstimateGas (binary search over real state transitions) against a stub contract that needs a symbolic head-room on entry (monotone gas dependence), consumes a symbolic amount below it and earns a symbolic refund, estimation window 32 (quick) / 100 (thorough) gas units above the intrinsic gas; contracts whose success is not monotone in the gas supplied are outside. The trace endpoints are not encoded: tracer isolation is outside. ApplyMessageWithConfig writes per-tx bookkeeping into the transient store of the context it is given also with commit=false; queries rely on BaseApp handing them a throw-away branch (assumption).',
         'bounds': SDB_BOUNDS + TX_BOUNDS,
-        'outside': ['eth_estimateGas sufficiency', 'TraceTx / TraceBlock', 'gRPC plumbing, BaseApp query contexts'],
+        'outside': ['eth_estimateGas over windows wider than 100 gas units or for contracts with non-monotone gas dependence', 'TraceTx / TraceBlock', 'gRPC plumbing, BaseApp query contexts'],
         'assumptions': TX_ASSUMPTIONS,
     },
     'C09': {
